@@ -239,3 +239,22 @@ MUTANTS += [
          old="        operation = self._operation\n        if operation is not None:\n            is_finished = operation.is_finished\n        else:\n            is_finished = self._is_finished_build\n",
          new="        operation = self._operation\n        if operation is not None:\n            is_finished = operation.is_finished and not operation.raised\n        else:\n            is_finished = self._is_finished_build\n"),
 ]
+
+MUTANTS += [
+    # ---- C14
+    dict(name='c14_mkdir_errors_swallowed', props=['C14'], file=FB,
+         old="                try:\n                    os.mkdir(parent)\n                except FileExistsError:\n                    continue\n                made_dirs.append(parent)",
+         new="                try:\n                    os.mkdir(parent)\n                except OSError:\n                    continue\n                made_dirs.append(parent)"),
+    dict(name='c14_apply_cached_no_error_cleanup', props=['C14'], file=FB,
+         old="                try:\n                    self._ensure_dirs_case(locked_created_dirs)\n                    self._apply_cached_suboperations(suboperation)\n                except Exception:\n                    self._build_dirs.error_building_file(filename)\n                    raise",
+         new="                self._ensure_dirs_case(locked_created_dirs)\n                self._apply_cached_suboperations(suboperation)"),
+    dict(name='c14_backup_rename_error_swallowed', props=['C14'], file=BK,
+         old="        try:\n            os.rename(filename, backup_filename)\n        except FileNotFoundError:\n            return False",
+         new="        try:\n            os.rename(filename, backup_filename)\n        except OSError:\n            return False"),
+    dict(name='c14_build_file_setup_error_keeps_reservation', props=['C14'], file=FB,
+         old="            self._new_cache.start_building_file(filename)\n        except Exception:\n            self._build_dirs.error_building_file(filename)\n            raise",
+         new="            self._new_cache.start_building_file(filename)\n        except Exception:\n            raise"),
+    dict(name='c14_make_dirs_no_undo', props=['C14'], file=FB,
+         old="            FileBuilder._remove_empty_dirs(made_dirs)\n            raise",
+         new="            raise"),
+]
